@@ -648,7 +648,7 @@ def c17_scale(ctx, repo):
             c = repo.table_class(tag)
             if c is None:
                 # getTableClass falls back to DefaultTable for unknown tags: the registration lands on the base class
-                ctx.ob("F20-scale", sm.rel + ":<module>", f"register on unknown table tag '{tag}' ({sorted(attrs)})", tag == "VMTX", "audited: getTableClass('VMTX') is DefaultTable; the visitor reaches VORG.VOriginRecords through the MRO" if tag == "VMTX" else "registration on a tag without a table class")
+                ctx.ob("F20-scale", sm.rel + ":<module>", f"register on unknown table tag '{tag}' ({sorted(attrs)})", False, "getTableClass() of a tag without a table module is DefaultTable; Visitor._visitorsFor stops at the first class of the MRO that has any registration, so a table with its own entry never reaches this one and the attribute is never scaled")
                 continue
             fields = set(_struct_fields(repo, tag))
             inst = _instance_attrs(repo, c)
@@ -724,6 +724,28 @@ def c17_scale(ctx, repo):
                 walk.append((norm(n.test).rsplit(".", 1)[1], scaled))
     ok = [w for w, _ in walk] == have and {w for w, s in walk if s} == unit_scaled and len(have) == 9
     ctx.ob("SCALE-shape", sm.rel + ":<module>", f"VARC delta walk {[w for w, _ in walk]} follows VAR_TRANSFORM_MAPPING order; scaled = {sorted(w for w, s in walk if s)}", ok, "" if ok else f"walk order differs from VAR_TRANSFORM_MAPPING order {have}, or the scaled set is not the translate/tCenter components {sorted(unit_scaled)}")
+
+    # F2Dot14 guard of the COLR scale paint
+    sp = sm.func("_setup_scale_paint")
+    F2DOT14_MAX = 32767 / 16384
+    tests = [n.test for n in walk_no_nested(sp.node) if isinstance(n, ast.If) and isinstance(n.test, ast.Compare) and any(norm(x) == "scale" for x in [n.test.left] + n.test.comparators)]
+    ok = False
+    detail = "no range test on `scale` found"
+    if tests:
+        t = tests[0]
+        parts = [t.left] + t.comparators
+        vals = [try_fold(x) for x in parts]
+        if len(parts) == 3 and norm(parts[1]) == "scale" and all(isinstance(o, ast.LtE) for o in t.ops) and isinstance(vals[0], (int, float)) and isinstance(vals[2], (int, float)):
+            ok = vals[0] >= -2 and vals[2] <= F2DOT14_MAX
+            detail = "" if ok else f"range [{vals[0]}, {vals[2]}] exceeds F2Dot14 [-2, {F2DOT14_MAX}]: PaintScaleUniform.scale cannot hold it and the font fails to compile"
+    ctx.ob("SCALE-shape", sp.where, f"PaintScaleUniform only for a scale inside F2Dot14: {norm(tests[0]) if tests else None}", ok, detail)
+    # composite components: x/y exist only for offset-positioned components
+    gv = [f for q, f in sm.funcs.items() if any("'glyf'" in norm(d) and "'glyphs'" in norm(d) for d in f.node.decorator_list)]
+    if not gv:
+        raise AnalysisError("scaleUpem: glyf visitor not found")
+    acc = [n for n in ast.walk(gv[0].node) if isinstance(n, ast.Attribute) and n.attr in ("x", "y") and norm(n.value) == "component" and isinstance(n.ctx, ast.Load)]
+    ok = bool(acc) and all(any(pol and ("hasattr(component" in norm(t) or "ARGS_ARE_XY_VALUES" in norm(t)) for t, pol in guard_conditions(n)) for n in acc)
+    ctx.ob("SCALE-shape", gv[0].where, "component.x / component.y read only when the component has offsets (hasattr / ARGS_ARE_XY_VALUES)", ok, "" if ok else "point-matched components (firstPt/secondPt) have no x/y: AttributeError on such fonts")
 
 
 ALL_C07 = [c07_subsetter]
@@ -929,6 +951,61 @@ ALL_C17.append(skip_audit)
 
 
 # ---------------------------------------------------------------------------
+# LAZY-total: ensureDecompiled(recurse=True) really decodes everything before the glyph order changes
+# ---------------------------------------------------------------------------
+def lazy_total(ctx, repo):
+    ctx.rule("LAZY-total", "every lazily decoded container the converters create is forced by BaseTable.ensureDecompiled(recurse=True): LazyList arrays are replaced by their decoded items before recursing, and every otTables class whose postRead moves child tables into an attribute that iterSubTables() cannot see overrides ensureDecompiled to reach them", floor=3)
+    ob = repo.mod("ttLib/tables/otBase.py")
+    cv = repo.mod("ttLib/tables/otConverters.py")
+    sites = [c for c in calls_in(cv.tree) if call_name(c) == "LazyList"]
+    sites += [c for n in ast.walk(cv.tree) if isinstance(n, ast.Call) and call_name(n) == "LazyList" for c in [n] if c not in sites]
+    ed = ob.func("BaseTable.ensureDecompiled")
+    g = CFG(ed.node)
+    forced = [st for st in ast.walk(ed.node) if isinstance(st, ast.If) and "isinstance" in norm(st.test) and "LazyList" in norm(st.test) and any(isinstance(b, (ast.Assign, ast.Expr)) for b in st.body)]
+    rec = [c for c in calls_in(ed.node) if last_attr(c) == "iterSubTables"]
+    ok = bool(forced) and bool(rec) and all(any(pol and norm(t) == "recurse" for t, pol in guard_conditions(f)) for f in forced) and forced[0].lineno < rec[0].lineno
+    ctx.ob("LAZY-total", ed.where, f"{len(set(id(s) for s in sites))} LazyList creation sites in otConverters; ensureDecompiled(recurse) replaces LazyList values before iterating sub-tables", ok and bool(sites), "" if ok else "lazily read record arrays stay undecoded after ensureDecompiled(): a later glyph-order change makes them resolve old glyph ids through the new order")
+    inner = [c for c in calls_in(ed.node) if last_attr(c) == "ensureDecompiled" and norm(c.func) != "super().ensureDecompiled"]
+    ok = bool(inner) and all((c.args and norm(c.args[0]) == "recurse") or any(k.arg == "recurse" and norm(k.value) == "recurse" for k in c.keywords) for c in inner)
+    ctx.ob("LAZY-total", ed.where, "the recursive call passes `recurse` on to the sub-tables", ok, "" if ok else "only the direct children are decoded; deeper tables stay lazy")
+    sc = load_schema(repo)
+    otm = repo.mod("ttLib/tables/otTables.py")
+    n = 0
+    for q, f in sorted(otm.funcs.items()):
+        if not q.endswith(".postRead"):
+            continue
+        cname = q.rsplit(".", 1)[0]
+        fields = sc.field_names(cname)
+        hidden = set()
+        for st in walk_no_nested(f.node):
+            # attribute reads `.X` where X is a repeated offset-to-table field of some schema class reachable from cname
+            for a in ast.walk(st):
+                if isinstance(a, ast.Attribute) and isinstance(a.ctx, ast.Load):
+                    for full, flds in sc.tables.items():
+                        for fld in flds:
+                            if fld.name == a.attr and fld.repeat is not None and fld.type.startswith(("Offset", "LOffset")) and sc.type_target(fld) in sc.by_class and full.startswith(tuple(t for _, fl in sc.reach_fields(cname) for t in [fl.table])):
+                                hidden.add(a.attr)
+        if not hidden:
+            continue
+        n += 1
+        has = (cname + ".ensureDecompiled") in otm.funcs
+        ok = has
+        if has:
+            o = otm.func(cname + ".ensureDecompiled")
+            txt = norm(o.node)
+            ok = "super().ensureDecompiled(" in txt and ".ensureDecompiled(recurse)" in txt.replace("super().ensureDecompiled(recurse)", "")
+        ctx.ob("LAZY-total", f.where, f"postRead keeps child tables taken from {sorted(hidden)} outside the converter fields: class overrides ensureDecompiled", ok, "" if ok else "these child tables are invisible to iterSubTables(); with lazy=True they are decoded after the glyph order changed")
+    if n == 0:
+        raise AnalysisError("LAZY-total: no postRead hiding child tables found (LigatureSubst expected)")
+    tf = repo.mod("ttLib/ttFont.py").func("TTFont.ensureDecompiled")
+    ok = any(last_attr(c) == "ensureDecompiled" and any(k.arg == "recurse" for k in c.keywords) for c in calls_in(tf.node))
+    ctx.ob("LAZY-total", tf.where, "TTFont.ensureDecompiled forwards recurse to the tables", ok)
+
+
+ALL_C17.append(lazy_total)
+
+
+# ---------------------------------------------------------------------------
 # IUP-ref: inferred deltas are interpolated against the untouched default outline
 # ---------------------------------------------------------------------------
 def iup_reference(ctx, repo, rels=("varLib/mutator.py", "varLib/instancer/__init__.py", "ttLib/ttGlyphSet.py", "ttLib/tables/TupleVariation.py")):
@@ -966,3 +1043,33 @@ def iup_reference(ctx, repo, rels=("varLib/mutator.py", "varLib/instancer/__init
                 ctx.ob("IUP-ref", f.where, f"{norm(c)[:80]}: reference `{rn}`", ok, "" if ok else f"`{rn}` is modified in this function ({muts[0][:60]}): later tuples are interpolated against an already-varied outline")
 
 ALL_C08.append(iup_reference)
+
+
+# ---------------------------------------------------------------------------
+# CLAMP: a requested axis range is cut down to what the font has
+# ---------------------------------------------------------------------------
+def axis_limit_clamp(ctx, repo):
+    ctx.rule("CLAMP", "AxisTriple.limitRangeAndPopulateDefaults clamps both ends of the requested range into [fvar minimum, fvar maximum] and the default into the clamped range (the new fvar must not advertise a range the variation data was not rebased for)", floor=3)
+    mod = repo.mod("varLib/instancer/__init__.py")
+    f = mod.func("AxisTriple.limitRangeAndPopulateDefaults")
+    fv = f.node.args.args[1].arg
+    got = {}
+    for st in walk_no_nested(f.node):
+        if isinstance(st, ast.Assign) and isinstance(st.targets[0], ast.Name) and isinstance(st.value, ast.Call) and call_name(st.value) in ("min", "max") and len(st.value.args) == 2:
+            v = st.targets[0].id
+            args = [norm(a) for a in st.value.args]
+            if v in args:
+                other = [a for a in args if a != v]
+                if other:
+                    got.setdefault(v, set()).add((call_name(st.value), other[0]))
+    for v in ("minimum", "maximum"):
+        want = {("max", f"{fv}[0]"), ("min", f"{fv}[2]")}
+        ok = want <= got.get(v, set())
+        ctx.ob("CLAMP", f.where, f"{v} clamped by {sorted(got.get(v, set()))}", ok, "" if ok else f"missing {sorted(want - got.get(v, set()))}: a limit outside the font's range survives into the new fvar")
+    d = [st for st in walk_no_nested(f.node) if isinstance(st, ast.Assign) and norm(st.targets[0]) == "default" and isinstance(st.value, ast.Call) and call_name(st.value) in ("min", "max")]
+    txt = norm(d[-1].value) if d else ""
+    ok = bool(d) and "max(minimum" in txt.replace(" ", "").replace("max(minimum", "max(minimum") and "min(maximum" in txt and "default" in txt
+    ctx.ob("CLAMP", f.where, f"default = {txt}", ok, "" if ok else "default is not clamped into [minimum, maximum]")
+
+
+ALL_C08.append(axis_limit_clamp)
